@@ -406,3 +406,231 @@ def rule_terms_are_a_multiset(ctx: Ctx, rep: Report, rule: str, module_prefixes:
                 else:
                     rep.ob(rule, key, True, fi.where(c), f"reviewed: {why}" if bad else "one term per seat")
     rep.floor(rule, floor)
+
+
+MUTABLE_CONTAINERS = {"list", "dict", "set", "bytearray", "List", "Dict", "Set", "deque", "defaultdict"}
+CACHE_DECORATORS = {"lru_cache", "cache"}
+CONSUMERS = {"list", "tuple", "sorted", "set", "frozenset", "any", "all", "sum", "max", "min", "dict", "enumerate", "zip", "map", "filter", "reversed", "iter", "next"}
+
+
+def _decorator_names(fn: ast.AST) -> set[str]:
+    out = set()
+    for d in getattr(fn, "decorator_list", []):
+        f = d.func if isinstance(d, ast.Call) else d
+        out.add(f.attr if isinstance(f, ast.Attribute) else f.id if isinstance(f, ast.Name) else "")
+    return out
+
+
+def _alias_value(ctx: Ctx, name: str) -> ast.AST | None:
+    try:
+        al = ctx.module("btclib.alias")
+    except Exception:
+        return None
+    for st in al.tree.body:
+        if isinstance(st, ast.Assign) and len(st.targets) == 1 and isinstance(st.targets[0], ast.Name) and st.targets[0].id == name:
+            return st.value
+    return None
+
+
+def _annotation_names(ctx: Ctx, ann: ast.AST | None, _depth: int = 0) -> set[str]:
+    """The type names an annotation mentions, aliases of btclib.alias opened."""
+    if ann is None:
+        return set()
+    if isinstance(ann, ast.Constant) and isinstance(ann.value, str):
+        try:
+            ann = ast.parse(ann.value, mode="eval").body
+        except SyntaxError:
+            return set()
+    out: set[str] = set()
+    for n in ast.walk(ann):
+        nm = n.id if isinstance(n, ast.Name) else n.attr if isinstance(n, ast.Attribute) else None
+        if nm is None:
+            continue
+        out.add(nm)
+        if _depth < 4:
+            v = _alias_value(ctx, nm)
+            if v is not None:
+                out |= _annotation_names(ctx, v, _depth + 1)
+    return out
+
+
+IMMUTABLE_TYPES = {"int", "bytes", "str", "bool", "float", "tuple", "frozenset", "None", "Optional", "Literal", "Decimal", "Union", "ClassVar", "Final"}
+
+
+def _is_frozen_dc(ci) -> bool:
+    return any(isinstance(d, ast.Call) and any(k.arg == "frozen" and isinstance(k.value, ast.Constant) and k.value.value is True for k in d.keywords)
+               for d in ci.node.decorator_list)
+
+
+def _deeply_frozen(ctx: Ctx, ci, _seen: frozenset = frozenset()) -> tuple[bool, str]:
+    """The class is a frozen dataclass whose fields are of immutable types (or of
+    deeply frozen classes themselves): nothing reachable from an instance can change."""
+    if not _is_frozen_dc(ci):
+        return False, "whose fields can be assigned"
+    for st in ci.node.body:
+        if not (isinstance(st, ast.AnnAssign) and isinstance(st.target, ast.Name)):
+            continue
+        for nm in sorted(_annotation_names(ctx, st.annotation)):
+            if nm in IMMUTABLE_TYPES:
+                continue
+            if _alias_value(ctx, nm) is not None:
+                continue  # an alias: what it opens to is in the set already
+            cands = [c for q, c in ctx.prog.classes.items() if q.rsplit(".", 1)[-1] == nm]
+            if cands and nm not in _seen and all(_deeply_frozen(ctx, c, _seen | {nm})[0] for c in cands):
+                continue
+            return False, f"whose field `{st.target.id}` holds a `{nm}`, which can change under it"
+    return True, ""
+
+
+def rule_no_stale_cache(ctx: Ctx, rep: Report, rule: str, module_prefixes: tuple[str, ...], floor: int) -> None:
+    """A memoized answer is the same object on every call. (a) A function under
+    `lru_cache` / `cache` whose answer is, or holds, a mutable container never
+    lets it out: no caller returns it, stores it, or grows it -- one caller's
+    edit would be every later caller's answer. (b) A `cached_property` lives
+    only in a frozen dataclass: in a mutable one the cached value outlives the
+    fields it was computed from."""
+    n = 0
+    cached: dict[str, FuncInfo] = {}
+    for q, fi in sorted(ctx.prog.functions.items()):
+        decs = _decorator_names(fi.node)
+        if decs & CACHE_DECORATORS:
+            names = _annotation_names(ctx, fi.node.returns)
+            if names & MUTABLE_CONTAINERS:
+                cached[q.rsplit(".", 1)[-1]] = fi
+    for mq, mi in sorted(ctx.prog.modules.items()):
+        if not any(mq.startswith(p_) for p_ in module_prefixes):
+            continue
+        for cname, ci in sorted(mi.classes.items()):
+            cps = [m for m in ci.methods.values() if "cached_property" in _decorator_names(m.node)]
+            if not cps:
+                continue
+            frozen, why_not = _deeply_frozen(ctx, ci)
+            for m in cps:
+                n += 1
+                rep.ob(rule, f"{mq}.{cname}.{m.node.name}:frozen_owner", frozen, m.where(),
+                       "cached_property of a frozen dataclass of immutable fields" if frozen else
+                       f"cached_property in {cname}, {why_not}: the value computed once is answered after what it was computed from has changed")
+    for q, fi in sorted(ctx.prog.functions.items()):
+        if not any(q.startswith(p_) for p_ in module_prefixes):
+            continue
+        for a in own_nodes(fi.node):
+            if not (isinstance(a, (ast.Assign, ast.Return)) and a.value is not None):
+                continue
+            calls = [c for c in ast.walk(a.value) if isinstance(c, ast.Call) and call_name(c) in cached]
+            if not calls:
+                continue
+            c = calls[0]
+            n += 1
+            if isinstance(a, ast.Return):
+                direct = a.value is c
+                rep.ob(rule, f"{q}:returns:{call_name(c)}", not direct, fi.where(a),
+                       "the cached container is read, not handed out" if not direct else f"returns the very object {call_name(c)} memoizes: the caller's edit is every later caller's answer")
+                continue
+            if a.value is not c:
+                continue
+            bound: set[str] = set()
+            for t in a.targets:
+                for x in ast.walk(t):
+                    if isinstance(x, ast.Name):
+                        bound.add(x.id)
+            leaks = []
+            for r in own_nodes(fi.node):
+                if isinstance(r, ast.Return) and r.value is not None:
+                    vals = r.value.elts if isinstance(r.value, ast.Tuple) else [r.value]
+                    leaks += [v for v in vals if isinstance(v, ast.Name) and v.id in bound]
+                if isinstance(r, ast.AugAssign) and isinstance(r.target, ast.Name) and r.target.id in bound:
+                    leaks.append(r)
+                if isinstance(r, ast.Call) and isinstance(r.func, ast.Attribute) and isinstance(r.func.value, ast.Name) and r.func.value.id in bound \
+                        and r.func.attr in {"append", "extend", "insert", "pop", "remove", "clear", "sort", "reverse", "update", "setdefault", "add"}:
+                    leaks.append(r)
+            rep.ob(rule, f"{q}:holds:{call_name(c)}", not leaks, fi.where(leaks[0] if leaks else a),
+                   "the cached container is read, not handed out or edited" if not leaks else
+                   f"`{norm(leaks[0])[:60]}`: the object {call_name(c)} memoizes is handed out or edited -- one caller's edit is every later caller's answer")
+    rep.ob(rule, "scanned", True, "btclib:1", f"{len(cached)} memoized functions answering mutable containers; {n} uses and cached properties in {module_prefixes}")
+    rep.floor(rule, floor)
+
+
+def _iterable_params(ctx: Ctx, fi: FuncInfo) -> set[str]:
+    """Parameters the function admits as a bare Iterable: by annotation, or by its own
+    `assert_type(p, Iterable, ...)` / `isinstance(p, Iterable)`."""
+    out = set()
+    a = fi.node.args
+    for p_ in a.posonlyargs + a.args + a.kwonlyargs:
+        names = _annotation_names(ctx, p_.annotation)
+        if names & {"Iterable", "Iterator"}:
+            out.add(p_.arg)
+    params = set(fi.params())
+    for c in own_nodes(fi.node):
+        if isinstance(c, ast.Call) and call_name(c) in {"assert_type", "isinstance"} and len(c.args) >= 2 and isinstance(c.args[0], ast.Name) \
+                and c.args[0].id in params and any(isinstance(x, ast.Name) and x.id in {"Iterable", "Iterator"} for x in ast.walk(c.args[1])):
+            out.add(c.args[0].id)
+    return out
+
+
+def rule_single_pass(ctx: Ctx, rep: Report, rule: str, module_prefixes: tuple[str, ...], floor: int) -> None:
+    """An Iterable can be walked once: a generator, a map, a reversed() is empty
+    the second time. A parameter the function admits as an Iterable is therefore
+    consumed at most once on any path -- copied (`list(p)`) and the copy used,
+    or walked once. A second walk sees nothing, silently: a path checked in one
+    loop and copied in the next derives the key itself."""
+    n = 0
+    for q, fi in sorted(ctx.prog.functions.items()):
+        if not any(q.startswith(p_) for p_ in module_prefixes):
+            continue
+        for p_ in sorted(_iterable_params(ctx, fi)):
+            uses: list[ast.AST] = []
+            rebound_at = None
+            for st in own_nodes(fi.node):
+                if isinstance(st, ast.Assign) and any(isinstance(t, ast.Name) and t.id == p_ for t in st.targets):
+                    if rebound_at is None or st.lineno < rebound_at:
+                        rebound_at = st.lineno
+            for x in own_nodes(fi.node):
+                if isinstance(x, (ast.For, ast.comprehension)) and isinstance(x.iter, ast.Name) and x.iter.id == p_:
+                    uses.append(x.iter)
+                elif isinstance(x, ast.Call) and call_name(x) in CONSUMERS and any(isinstance(a_, ast.Name) and a_.id == p_ for a_ in x.args):
+                    uses.append(x)
+                elif isinstance(x, ast.Starred) and isinstance(x.value, ast.Name) and x.value.id == p_:
+                    uses.append(x)
+            # uses after the parameter was rebound (to its own copy) walk the copy
+            live = [u for u in uses if rebound_at is None or u.lineno <= rebound_at]
+            n += 1
+            # two uses in the two arms of one `if` are one use per path
+            ok = len(live) <= 1 or _exclusive(fi, live)
+            rep.ob(rule, f"{q}:{p_}", ok, fi.where(live[1] if len(live) > 1 else fi.node),
+                   f"`{p_}` is walked at most once per path ({len(live)} walks)" if ok else
+                   f"`{p_}` is admitted as an Iterable and walked {len(live)} times (lines {[u.lineno for u in live]}): a generator is empty the second time")
+    rep.floor(rule, floor)
+
+
+def _exclusive(fi: FuncInfo, uses: list[ast.AST]) -> bool:
+    """Every two of the uses sit in different arms of one if/elif/else (or one of them is followed by a return in its arm)."""
+    def arms(u: ast.AST) -> list[tuple[int, str]]:
+        out = []
+        cur, prev = parent(u), u
+        while cur is not None and cur is not fi.node:
+            if isinstance(cur, ast.If):
+                out.append((id(cur), "body" if any(prev is s for s in cur.body) else "orelse" if any(prev is s for s in cur.orelse) else "test"))
+            prev, cur = cur, parent(cur)
+        return out
+
+    def returns_after(u: ast.AST) -> bool:
+        cur, prev = parent(u), u
+        while cur is not None and cur is not fi.node:
+            for fld in ("body", "orelse"):
+                blk = getattr(cur, fld, None)
+                if isinstance(blk, list) and any(prev is s for s in blk):
+                    i = [k for k, s in enumerate(blk) if s is prev][0]
+                    if any(isinstance(s, (ast.Return, ast.Raise)) for s in blk[i:]):
+                        return True
+            prev, cur = cur, parent(cur)
+        return isinstance(prev, ast.Return)
+
+    for i, a in enumerate(uses):
+        for b in uses[i + 1:]:
+            aa, bb = dict(arms(a)), dict(arms(b))
+            if any(k in bb and bb[k] != v and "test" not in (v, bb[k]) for k, v in aa.items()):
+                continue
+            if returns_after(a) and a.lineno < b.lineno and any(k not in bb for k in aa):
+                continue
+            return False
+    return True
